@@ -289,7 +289,7 @@ Lemma cstep_inv dm s c : hinv (fst s) -> hinv (fst (cstep dm s c)).
 Proof.
   intros I. destruct c as [x|x|name o chans cb update order]; cbn [cstep fst]; auto.
   - apply hstep_inv; auto.
-  - destruct (lookup o (live (fst s))); auto. destruct (reaches_take (snd s) chans cb); cbn [fst]; auto.
+  - destruct (lookup o (live (fst s))); auto. destruct (reaches_take (chmap (snd s)) chans cb); cbn [fst]; auto.
     apply take_inv; auto.
 Qed.
 Lemma crun_inv dm h : hinv (fst (crun dm h)).
@@ -316,7 +316,7 @@ Qed.
 
 Theorem register_own_windows : forall dm ch name o chans cb update order ob,
   lookup o (live (fst (crun dm ch))) = Some ob ->
-  reaches_take (snd (crun dm ch)) chans cb = true ->
+  reaches_take (chmap (snd (crun dm ch))) chans cb = true ->
   let own := collect (h_own ob) in
   let res := register_program dm (snd (crun dm ch)) name {| p_tag := o; p_chans := chans; p_meas := own |} cb update order in
   snd (cstep dm (crun dm ch) (CRegObj name o chans cb update order)) = fst res
@@ -331,7 +331,7 @@ Qed.
 
 (* if the call does not reach _take_measurements it raises, whatever the measurements are *)
 Lemma not_reached_raises dm st name o chans m cb update order :
-  reaches_take st chans cb = false ->
+  reaches_take (chmap st) chans cb = false ->
   snd (register_program dm st name {| p_tag := o; p_chans := chans; p_meas := m |} cb update order) <> None
   /\ fst (register_program dm st name {| p_tag := o; p_chans := chans; p_meas := m |} cb update order) = st.
 Proof.
